@@ -428,6 +428,27 @@ func blockingScenario(id int, seed int64, root string, tw *TraceWriter) {
 	var bl blog
 	var err error
 	opts := klevdb.Options{KeyIndex: true, Rollover: int64(100 + rng.Intn(300))}
+	vid := 0
+	if id%3 == 2 {
+		// the blocking log is opened on a log that already has messages and holes (fewer messages than offsets):
+		// where the notifier starts is part of the wrappers
+		if l0, e0 := klevdb.Open(dir, opts); e0 == nil {
+			var b []klevdb.Message
+			for i := 0; i < 4+rng.Intn(6); i++ {
+				vid++
+				v := valueBytes(vid, 12)
+				x.vals[string(v)] = len(x.vals) + 1
+				b = append(b, klevdb.Message{Key: keyBytes[[]string{"a", "b", "g"}[vid%3]], Value: v, Time: time.UnixMicro(x.t0 + int64(vid))})
+			}
+			l0.Publish(b)
+			del := map[int64]struct{}{}
+			for i := 0; i < 1+rng.Intn(4); i++ {
+				del[int64(rng.Intn(len(b)))] = struct{}{}
+			}
+			klevdb.DeleteMulti(context.Background(), l0, del, noBackoff)
+			l0.Close()
+		}
+	}
 	if id%2 == 1 { // every other scenario through the typed wrappers (OpenTBlocking)
 		bl, err = openTypedBL(dir, opts)
 	} else {
@@ -438,7 +459,6 @@ func blockingScenario(id int, seed int64, root string, tw *TraceWriter) {
 		return
 	}
 	tw.Emit(map[string]any{"ev": "reset", "hid": id})
-	vid := 0
 	publish := func(n int) {
 		var b []klevdb.Message
 		for i := 0; i < n; i++ {
@@ -489,11 +509,13 @@ func blockingScenario(id int, seed int64, root string, tw *TraceWriter) {
 	empty := bres{Msgs: []MM{}}
 	rounds := 2 + rng.Intn(3)
 	for round := 0; round < rounds; round++ {
-		publish(rng.Intn(4))
+		if round > 0 || id%3 != 2 { // on a pre-filled log the first round runs before anything is published through the wrapper
+			publish(rng.Intn(4))
+		}
 		next, _ := bl.NextOffset()
 		// below next or relative: returns at once with Consume's result
-		for _, off := range []int64{klevdb.OffsetOldest, klevdb.OffsetNewest, 0, next - 1} {
-			if off >= next {
+		for _, off := range []int64{klevdb.OffsetOldest, klevdb.OffsetNewest, 0, next - 1, next - 2, next / 2} {
+			if off >= next || off < -2 {
 				continue
 			}
 			key := []string{"", "", "a"}[rng.Intn(3)]
